@@ -248,3 +248,28 @@ Lemma ex_answer :
   /\ del_answer 120 1750 [0; 1] (spec_query (spec_run (map spec_of_op ex_ops1)) minInt64 maxInt64 [0; 1])
     = [(0, [(-1500, [1]); (2700, [8])]); (1, [(1800, [7])])].
 Proof. vm_compute. split; reflexivity. Qed.
+
+(* ------------------------------------------------------------------ *)
+(** * The Delete step of the structured model (instance of the C01 step lemma; no Restart
+    assumption involved) *)
+Lemma delete_step_exact : forall (c : cfg) (s : state) mint maxt sel,
+  wf_cfg c -> inv c s -> wf_delete (s_head s) mint maxt sel ->
+  inv c (delete mint maxt sel s) /\
+  sequiv (abs (delete mint maxt sel s)) (spec_step (abs s) (SDelete mint maxt sel)).
+Proof.
+  intros c s mint maxt sel Hw Hi Hd.
+  exact (step_refines c s (Delete mint maxt sel) Hw Hi Hd).
+Qed.
+
+Lemma ex_all :
+  (wf_cfg ex_cfg /\ wf_ops ex_cfg state0 (ex_ops1 ++ Delete 120 1750 [0; 1] :: ex_ops2)) /\
+  forallb is_maint ex_ops2 = true /\
+  dead_covered (run ex_cfg (ex_ops1 ++ Delete 120 1750 [0; 1] :: ex_ops2)) /\
+  query (run ex_cfg (ex_ops1 ++ Delete 120 1750 [0; 1] :: ex_ops2)) minInt64 maxInt64 [0; 1]
+    = [(0, [(-1500, [1]); (2700, [8])]); (1, [(1800, [7])])] /\
+  spec_query (spec_run (map spec_of_op ex_ops1)) minInt64 maxInt64 [0; 1]
+    = [(0, [(-1500, [1]); (900, [3]); (1700, [6]); (2700, [8])]); (1, [(150, [2]); (400, [5]); (950, [4]); (1800, [7])])].
+Proof.
+  split; [exact ex_wf|]. split; [exact ex_maint|]. split; [exact ex_dead_covered|].
+  split; [exact (proj1 ex_answer)|]. vm_compute. reflexivity.
+Qed.
